@@ -222,7 +222,7 @@ func (s *Store) LogReader(key string) (ref.ReflogReader, error) {
 	row := s.db.QueryRow(`SELECT COUNT(*) FROM reflogs WHERE ref = ?`, key)
 	var c int
 	if err := row.Scan(&c); err != nil {
-		return &ReflogReader{}, nil
+		return nil, err
 	}
 	if c == 0 {
 		return nil, ref.ErrKeyNotFound
